@@ -415,8 +415,13 @@ pub fn run(cases: &[Value], trace: &mut Trace, seed: u64) {
                         }
                         // "never completes": watchdog expired and both the proxy's caller and the server thread are seen asleep
                         // in a blocking call with nothing left to read (or one of them spins) -- not merely a slow machine
-                        if t0.elapsed() > Duration::from_millis(2000)
-                            && hang_confirmed(t0, &[call_tid.load(std::sync::atomic::Ordering::SeqCst), s.tid.load(std::sync::atomic::Ordering::SeqCst)], &[s.tx.as_raw_fd()])
+                        // When the server has been asked to serve every request the proxy wrote and has returned from each, nobody
+                        // is left who would read what may still sit in its socket: the caller asleep in its read is then stuck for
+                        // good, whatever the clock says (a closed system with every thread asleep makes no progress).
+                        let all_served = !serving && srv_res.len() as u64 >= sent;
+                        let tids = [call_tid.load(std::sync::atomic::Ordering::SeqCst), s.tid.load(std::sync::atomic::Ordering::SeqCst)];
+                        if (all_served && t0.elapsed() > Duration::from_millis(300) && res.is_none() && all_blocked(&tids, &[]))
+                            || (t0.elapsed() > Duration::from_millis(2000) && hang_confirmed(t0, &tids, &[s.tx.as_raw_fd()]))
                         {
                             hang = true;
                             let _ = s.tx.shutdown(std::net::Shutdown::Both);
